@@ -30,16 +30,24 @@ def find_walker(p, mito):
     """the recursive method that takes a node and dispatches on isinstance(node, ast.X)"""
     # semantic anchor: the method that the pathway functions hand `<parsed tree>.body` to
     votes = {}
+    curried = {}
     for m in mito.methods.values():
         for n in walk_no_nested(m.node):
             if isinstance(n, ast.Call) and n.args and isinstance(n.args[0], ast.Attribute) and n.args[0].attr == "body" and isinstance(n.args[0].value, ast.Name):
                 f = n.func
                 if isinstance(f, ast.Attribute) and isinstance(f.value, ast.Name) and f.value.id == "self" and f.attr in mito.methods:
                     votes[f.attr] = votes.get(f.attr, 0) + 1
+                    # `self.h(tree.body)(tree.body)`: h returns the evaluator, which is then applied to the same node
+                    from ..loader import parent as _parent
+                    q = _parent(n)
+                    if isinstance(q, ast.Call) and q.func is n and len(q.args) == 1 and src(q.args[0]) == src(n.args[0]):
+                        curried[f.attr] = curried.get(f.attr, 0) + 1
     if votes:
         best = max(votes.items(), key=lambda kv: kv[1])
         if best[1] >= 2:
-            return mito.methods[best[0]]
+            w = mito.methods[best[0]]
+            w.curried = curried.get(best[0], 0) == best[1]
+            return w
     cands = []
     for m in mito.methods.values():
         params = [a for a in m.params() if a != "self"]
@@ -96,6 +104,24 @@ class Walk:
             for g in fwd:
                 if g.cls is self.mito and g.key != self.walker.key and any(h.key == self.walker.key for h in res.reachable_from(g)):
                     out[g.key] = g
+            if getattr(self.walker, "curried", False):
+                # the walker hands out evaluators: they (and whatever they reach that comes back to the walker) are the cluster,
+                # and so is a thin method that only applies the walker to its own parameter
+                for r in walk_no_nested(self.walker.node):
+                    if isinstance(r, ast.Return) and r.value is not None:
+                        for g in res._leaves(self.walker, r.value, 0, set()):
+                            out[g.key] = g
+                for g in list(out.values()):
+                    for h in res.reachable_from(g):
+                        if h.cls is self.mito and any(k.key == self.walker.key for k in res.reachable_from(h)) and h.name not in ("metabolize",):
+                            pass
+                for m in self.mito.methods.values():
+                    rets = [n for n in walk_no_nested(m.node) if isinstance(n, ast.Return) and n.value is not None]
+                    ps = [a for a in m.params() if a != "self"]
+                    v = rets[0].value if len(rets) == 1 else None
+                    if len(ps) == 1 and isinstance(v, ast.Call) and isinstance(v.func, ast.Call) and is_self_attr(v.func.func, self.walker.name) \
+                            and len(v.args) == 1 and src(v.args[0]) == ps[0]:
+                        out[m.key] = m
             self._cluster = out
         return self._cluster
 
@@ -105,6 +131,8 @@ class Walk:
         it.events.clear()
         try:
             v = it.call_fi(self.walker, [obj, node], {})
+            if getattr(self.walker, "curried", False):
+                v = it.call(v, [node], {})          # the walker hands back the evaluator for this node: apply it
             return dict(kind="ok", value=v, decisions=list(it.decisions), events=list(it.events), reads=set(it.host_reads))
         except PyRaise as e:
             return dict(kind="raise", exc=repr(e.exc), decisions=list(it.decisions), events=list(it.events), reads=set(it.host_reads))
@@ -412,6 +440,9 @@ def run(p, led, tier):
         for n in walk_no_nested(m.node):
             if isinstance(n, ast.Return) and n.value is not None and m.key not in W.cluster():
                 calls = [c for c in ast.walk(n.value) if isinstance(c, ast.Call) and is_self_attr(c.func, walker.name)]
+                if getattr(walker, "curried", False):
+                    # the value is the *application* of what the walker returns: `self.h(x)(x)`
+                    calls = [c for c in ast.walk(n.value) if isinstance(c, ast.Call) and isinstance(c.func, ast.Call) and is_self_attr(c.func.func, walker.name)]
                 if calls:
                     key = f"{m.qual} ▸ result of the walker"
                     v = n.value
